@@ -124,6 +124,6 @@ pub static DEF: CheckDef = CheckDef {
     id: "C01", level: "exploration", gen, exec,
     nontrivial: |o| o.counters.get("cmds").copied().unwrap_or(0) >= 20,
     rule: "one run = one seeded history of 20-300 string/key-space commands (all SET option combinations, boundary integers, binary/empty/CRLF keys and values, keys pre-populated with other types, wrong arities) from one client over a segmented connection, with clock advances across TTL deadlines and the sweeper thread running; every reply is compared with the reference model at the exact virtual execution time and the stored dataset of all 16 databases is compared with the model after every command; non-trivial = at least 20 commands answered; distinct = distinct event-log hash",
-    quick_budget_s: 45.0, thorough_budget_s: 900.0, quick_max_runs: 1_000_000, thorough_max_runs: 100_000_000, exhaustive: false,
+    quick_budget_s: 45.0, thorough_budget_s: 900.0, quick_max_runs: 1_000_000, thorough_max_runs: 100_000_000, exhaustive: false, exhaustive_after: |_| 0,
     real: REAL_WHOLE_SERVER, stub: STUB_WHOLE_SERVER, assumptions: ASSUME_COMMON,
 };
